@@ -179,6 +179,12 @@ def apply(tops, op, tmp):
         tops.append(md.Topology())
         return
     t = tops[op[1]]
+    if k == "hash":
+        # observer (the model ignores it): the topology is hashed / used as a dict key in the middle of the history,
+        # as Trajectory.__hash__ or a user's dict would; whatever is remembered there must not outlive a later edit
+        {t: 1}[t]
+        hash(t)
+        return
     if k == "add_chain":
         t.add_chain(op[2]) if op[2] is not None else t.add_chain()
     elif k == "add_residue":
@@ -390,6 +396,8 @@ def concretise(tops, op):
     k = op[0]
     s = pick(op[1], len(tops))
     t = tops[s]
+    if k == "hash":
+        return ["hash", s]
     if k == "copy":
         if op[2] == "traj_slice" and t.n_atoms < 1:
             return ["copy", s, "copy"]
@@ -486,6 +494,12 @@ def run_case(case, tmp):
                 continue
         done.append(op)
         n0 = len(tops)
+        if op[0] == "hash":          # observer: no status entry, never changes the registers
+            try:
+                apply(tops, op, tmp)
+            except Exception as e:
+                law("hash_observer_raises", False, "%s: %s" % (type(e).__name__, str(e)[:120]))
+            continue
         try:
             apply(tops, op, tmp)
             status.append(False)
@@ -500,6 +514,18 @@ def run_case(case, tmp):
     dumps = [dump(t) for t in tops]
     eqm = [[bool(a == b) for b in tops] for a in tops]
     hm = [[bool(hash(a) == hash(b)) for b in tops] for a in tops]
+    # equal topologies hash equal, whatever was hashed earlier in the history: a fresh copy of every register
+    for t in tops:
+        def fresh(t=t):
+            c = t.copy()
+            if not (t == c and c == t):
+                return True, ""          # (copy preserving == is the model's business)
+            return hash(t) == hash(c), "hash(t)=%d hash(t.copy())=%d" % (hash(t), hash(c))
+        law_try("hash_equals_hash_of_fresh_copy", fresh)
+    for i, a in enumerate(tops):
+        for b in tops[i + 1:]:
+            if a == b:
+                law("eq_implies_hash_at_end", hash(a) == hash(b), "registers == but hash differently")
     try:
         check_small_classes(tops)
     except Exception as e:
